@@ -14,6 +14,24 @@ EXC = 'exc'
 class Skip(Exception):
     """operation not applicable in this state (operand does not exist)"""
 
+class Blocked(BaseException):
+    """the operation did not return within the guard time: it is blocked for good"""
+
+def _alarm_guard(seconds):
+    """SIGALRM watchdog around one operation (main thread only; lock.acquire is interruptible on POSIX).
+    Returns the function that cancels it."""
+    import signal, threading
+    if threading.current_thread() is not threading.main_thread(): return lambda: None
+    def handler(signum, frame): raise Blocked()
+    try: old = signal.signal(signal.SIGALRM, handler)
+    except ValueError: return lambda: None
+    signal.alarm(seconds)
+    def cancel():
+        signal.alarm(0)
+        try: signal.signal(signal.SIGALRM, old)
+        except Exception: pass
+    return cancel
+
 class Env(object):
     def __init__(self, model, **bind_kwargs):
         from pony import orm
@@ -474,9 +492,17 @@ class Exec(object):
         return self
     def apply(self, op):
         op = tuple(op)
+        guard = _alarm_guard(120)
         try:
             r = ('ok', self.cv(getattr(self, 'op_' + op[0])(*op[1:])))
             self._model_update(op, r)
+        except Blocked:
+            # an operation that blocks for good (e.g. on a leaked provider lock) must end as an observation
+            r = (EXC, 'BlockedForGood'); self.last_exc = None; self.died = True; self.refs = {}
+            self._force_unlock()
+            self.obs.append(r)
+            if self.dumps: self.dumps.append(self.env.dump())
+            return r
         except Skip:
             self.skipped = True
             r = ('skip', None)
@@ -484,9 +510,17 @@ class Exec(object):
             r = (EXC, type(e).__name__)
             self.last_exc = e
             self._after_exception()
+        finally:
+            guard()
         self.obs.append(r)
         if self.dumps: self.dumps.append(self.env.dump())
         return r
+    def _force_unlock(self):
+        import threading
+        prov = self.env.db.provider
+        for name in ('transaction_lock', 'pre_transaction_lock'):
+            lk = getattr(prov, name, None)
+            if lk is not None and lk.locked(): setattr(prov, name, threading.Lock())
     # ---- boring reference model of what the program did (facts that later reads must confirm) -------
     def _model_update(self, op, r):
         """facts: (label, attr) -> ('val', v) for scalars / references, ('is', items) | ('has', item) |
